@@ -251,6 +251,8 @@ func runC13(c *core.Ctx) {
 	if c.Thorough() {
 		nBase = 80
 	}
+	mutSep = mutSeps[c.Index%len(mutSeps)]
+	c.Feature(fmt.Sprintf("separator-mutations:%q", mutSep))
 	tp := &c13pop{c: c, kind: "trip", streamToKey: map[string]string{}, keyToStream: map[string]string{}, origin: map[string]string{}}
 	vp := &c13pop{c: c, kind: "vehicle", streamToKey: map[string]string{}, keyToStream: map[string]string{}, origin: map[string]string{}}
 
